@@ -6,6 +6,7 @@ valid call (as decided by inspect.signature.bind) x 11 decorators x all stacks o
 results, argument specification, double wrapping, getcallargs / call_with_callargs, try_* fallbacks, kwargs_support.
 E1 'cache_histories': BFS over call sequences on a cached function against a call-counting dict model.
 """
+import collections
 import inspect
 import itertools
 import json
@@ -40,11 +41,20 @@ def signatures():
 SIGS = signatures()
 
 
+class _Sentinel(object):
+    def __repr__(self):
+        return '<MISSING>'
+
+
+_SENT = _Sentinel()
+
+
 def make(sig, raising=False):
     p, k = sig['p'], sig['k']
     params = []
     for i, n in enumerate(NAMES[:p]):
-        params.append(n if i < p - k else "%s='d%s'" % (n, n))
+        # the LAST defaulted parameter defaults to a sentinel object (the `_MISSING = object()` idiom): a binding must hand out that very object
+        params.append(n if i < p - k else ("%s=_SENT" % n if i == p - 1 else "%s='d%s'" % (n, n)))
     if sig['va']:
         params.append('*args')
     if sig['vk']:
@@ -55,7 +65,7 @@ def make(sig, raising=False):
     if raising:
         body = "    if 'boom' in (%s):\n        raise KeyError('boom')\n" % allv
     src = 'def f(%s):\n%s    return (%s,)\n' % (', '.join(params), body, ', '.join(vals))
-    ns = {}
+    ns = {'_SENT': _SENT}
     exec(src, ns)
     return ns['f']
 
@@ -416,6 +426,46 @@ def check_tries(case):
     return out
 
 
+# ------------------------------------------------------------------------------------------------ cache: re-entrant first calls
+
+def check_reentrant(case):
+    """a freshly cached function whose body calls the cached function again (recursion): over the whole call sequence every argument is evaluated once"""
+    from pyg_base import cache
+    out = Out()
+    seq = case['calls']
+    evals = collections.Counter()
+    box = {}
+
+    def fib(n):
+        evals[n] += 1
+        return n if n < 2 else box['c'](n - 1) + box['c'](n - 2)
+    box['c'] = cache(fib)
+    ref = [0, 1]
+    for i in range(2, 12):
+        ref.append(ref[-1] + ref[-2])
+    needed = set()
+    for n in seq:
+        out.sub()
+        try:
+            r = box['c'](n)
+            out.call()
+        except Exception as e:
+            out.viol('cache-raised', 'cached fib: call sequence %s, call %d raised %s: %s' % (seq, n, type(e).__name__, e), reentrant=True)
+            return out
+        needed |= set(range(n + 1)) if n >= 2 else {n}
+        if r != ref[n]:
+            out.viol('cache-wrong-value', 'cached fib(%d) = %r in the call sequence %s' % (n, r, seq), reentrant=True)
+        bad = {k: v for k, v in evals.items() if v != 1}
+        if bad or set(evals) != needed:
+            out.viol('cache-evaluation-count', 'cached recursive fib, call sequence %s up to fib(%d): evaluations per argument %s, expected exactly once for each of %s' % (
+                seq, n, dict(sorted(evals.items())), sorted(needed)), reentrant=True, first=(n == seq[0]))
+            return out
+    out.cls('reentrant-%s' % ('deep-first' if seq[0] >= 2 else 'shallow-first'))
+    if seq[0] >= 2:
+        out.nontrivial()
+    return out
+
+
 # ------------------------------------------------------------------------------------------------ cache histories (E1)
 
 CALLS = [
@@ -551,5 +601,9 @@ def suites(tier, seed):
                    'verbose in {None, False, True} x r in 0..2 x f failing its first k in 0..4 calls: result, number of calls of f, a mutable value is handed out as a copy; '
                    'non-trivial = f raised at least once' % len(EXCS),
               bounds=dict(exceptions=len(EXCS), values=len(TRY_VALUES), repeat_max=2, failures_max=4)),
+        Suite('cache_reentrant', lambda: ({'calls': list(c)} for k in (1, 2, 3) for c in itertools.product(range(7), repeat=k)), check_reentrant,
+              rule='a freshly cached recursive function (fib calling its cached self) x every sequence of <= 3 calls with arguments 0..6: values, and every argument evaluated '
+                   'exactly once over the whole sequence (the first call is re-entrant before any cache entry exists); non-trivial = the first call recurses',
+              bounds=dict(max_calls=3, max_argument=6)),
         CacheBfs(3 if q else 5),
     ]
